@@ -71,12 +71,15 @@ var extensionDirectives = []string{"ext", "foo=bar", `x-y="q,w"`, "community=\"U
 // respellCC turns the comma-joined canonical value(s) into one or more field lines
 func respellCC(g *G, values []string) []string {
 	// a field line that is not well-formed (a quoted-string that never ends) has no other spelling
+	// (neither has one with a backslash outside a quoted-string: not a token, not a quoted-pair)
 	for _, v := range values {
 		inq, esc := false, false
 		for _, c := range v {
 			switch {
 			case esc:
 				esc = false
+			case c == '\\' && !inq:
+				return values
 			case c == '\\':
 				esc = true
 			case c == '"':
